@@ -118,10 +118,10 @@ func formatValue(val any) string {
 	return fmt.Sprintf("%#v", val)
 }
 
-func disjunctionCaseForType(typesFormatter *typeFormatter, input string, typeDef ast.Type) string {
+func disjunctionCaseForType(typesFormatter *typeFormatter, input string, typeDef ast.Type) (string, error) {
 	// TODO: shaky at best
 	if typeDef.IsAnyOf(ast.KindArray, ast.KindMap) {
-		return fmt.Sprintf("is_array(%s)", input)
+		return fmt.Sprintf("is_array(%s)", input), nil
 	}
 
 	if typeDef.IsScalar() {
@@ -139,21 +139,22 @@ func disjunctionCaseForType(typesFormatter *typeFormatter, input string, typeDef
 			ast.KindInt32:   "is_int",
 			ast.KindInt64:   "is_int",
 			ast.KindBool:    "is_bool",
+			ast.KindNull:    "is_null",
 		}
 
 		testFunc := testMap[typeDef.Scalar.ScalarKind]
 		if testFunc == "" {
-			return "/* unhandled scalar type */"
+			return "", fmt.Errorf("can not generate a type check for a disjunction branch of scalar kind '%s'", typeDef.Scalar.ScalarKind)
 		}
 
-		return fmt.Sprintf("%s(%s)", testFunc, input)
+		return fmt.Sprintf("%s(%s)", testFunc, input), nil
 	}
 
 	if typeDef.IsRef() {
-		return fmt.Sprintf("%s instanceof %s", input, typesFormatter.formatRef(typeDef.Ref.AsType(), false))
+		return fmt.Sprintf("%s instanceof %s", input, typesFormatter.formatRef(typeDef.Ref.AsType(), false)), nil
 	}
 
-	return "/* unhandled type */"
+	return "", fmt.Errorf("can not generate a type check for a disjunction branch of kind '%s'", typeDef.Kind)
 }
 
 /******************************************
